@@ -1,8 +1,10 @@
 """C19 — shutdown drains in-flight requests and always terminates in time.  PARTIAL (see assumptions).
 
 Correspondence: the BUILT BINARY of /repo in real time (own process and ports per scenario, slow fake upstream, fake
-discovery/JWKS server); SIGTERM at a planned instant; requests planned before the signal, during the wait-before
-period and after it; observed: connection refused / response completed / cut, exit time and status.
+discovery/JWKS server); a termination signal (SIGTERM / SIGHUP / SIGINT / SIGQUIT) at a planned instant; requests planned
+before the signal, during the wait-before period and after it; FURTHER termination signals (a second, third, fourth one of
+each kind) at planned instants inside the wait-before period and inside the drain; observed: connection refused / response
+completed / cut, exit time and status (killed by signal k = status -k).
 Compared with Model/Shutdown.v: accepted flags, completed flags and exit status EXACTLY, exit time within TOL.
 Flakiness policy: no retries. Scenarios keep every planned instant at least 150 ms away from every instant at which
 the outcome changes (listener close, Shutdown's poll windows incl. their 10 % jitter, the deadline); TOL covers
@@ -14,6 +16,13 @@ from lib import vf
 SEC = 10**9
 TOL = int(0.7 * SEC)       # tolerance on exit time (given in the design: Go's Shutdown polls up to every 500 ms)
 MARGIN = int(0.2 * SEC)    # distance from a boundary below which the monitor makes no claim
+TERMINATION = {1: "SIGHUP", 2: "SIGINT", 3: "SIGQUIT", 15: "SIGTERM"}   # "a termination signal" (those a process can act on)
+
+
+def status_text(code):
+    if code < 0 and code != -1000:
+        return "killed by signal %d%s" % (-code, " (%s)" % TERMINATION[-code] if -code in TERMINATION else "")
+    return "exit status %d" % code
 
 
 def parse(infile, implfile, modelfile):
@@ -25,10 +34,12 @@ def parse(infile, implfile, modelfile):
             rest = " ".join(t[5:]).split("|")
             arr = [int(x) for x in rest[0].split()]
             svc = [int(x) for x in rest[1].split()]
+            sig_at = [int(x) for x in rest[2].split()] if len(rest) > 3 else [0]
+            sig_kind = [int(x) for x in rest[3].split()] if len(rest) > 3 else [15]
             n = len(arr)
             m = [int(x) for x in lm.split()]
             base = {"input": li.strip(), "impl": la.strip(), "model": lm.strip(), "W": W, "G": G, "arr": arr, "svc": svc,
-                    "m_started": m[0]}
+                    "sig_at": sig_at, "sig_kind": sig_kind, "m_started": m[0]}
             if la.startswith("R"):
                 base.update({"refused": True, "ref_class": int(la.split()[1])})
                 rows.append(base)
@@ -41,7 +52,7 @@ def parse(infile, implfile, modelfile):
             comp = [int(x) for x in a[2].split()]
             ends = [int(x) for x in a[3].split()]
             rows.append({"input": li.strip(), "impl": la.strip(), "model": lm.strip(), "W": W, "G": G, "arr": arr, "svc": svc,
-                         "refused": False, "m_started": 0 if model_refused_only else 1, "model_refused_only": model_refused_only,
+                         "sig_at": sig_at, "sig_kind": sig_kind, "refused": False, "m_started": 0 if model_refused_only else 1, "model_refused_only": model_refused_only,
                          "exit": exit_ns, "code": exit_code, "acc": acc, "comp": comp, "ends": ends,
                          "m_close": m[0], "m_deadline": m[1], "m_exit": m[2], "m_code": m[3],
                          "m_acc": m[4:4 + n], "m_comp": m[4 + n:4 + 2 * n]})
@@ -97,8 +108,17 @@ def monitor(ctx, rows, notes):
             continue
         case = {"scenario": notes[i] if i < len(notes) else "", "W_ns": W, "G_ns": G,
                 "requests_(arrival_ns,service_ns)": list(zip(r["arr"], r["svc"])),
-                "observed": {"exit_ns": r["exit"], "exit_status": r["code"], "accepted": r["acc"], "completed": r["comp"], "end_ns": r["ends"]}}
-        sig.add((W, G, tuple(r["acc"]), tuple(r["comp"]), r["code"]))
+                "signals_(instant_ns,number)": list(zip(r["sig_at"], r["sig_kind"])),
+                "observed": {"exit_ns": r["exit"], "exit_status": r["code"], "status": status_text(r["code"]), "accepted": r["acc"],
+                             "completed": r["comp"], "end_ns": r["ends"]}}
+        sig.add((W, G, tuple(r["acc"]), tuple(r["comp"]), r["code"], tuple(r["sig_kind"]), tuple(a < W for a in r["sig_at"][1:])))
+        # the property speaks about termination signals; a scenario that also sends a signal no process can act on
+        # (SIGKILL: the driver's control that a killed process is observed as such) is outside it
+        if any(k not in TERMINATION for k in r["sig_kind"]):
+            continue
+        nsig = len(r["sig_kind"])
+        more = "" if nsig == 1 else " (%d termination signals were sent: %s)" % (
+            nsig, ", ".join("%s at %.2f s" % (TERMINATION[k], t / SEC) for t, k in zip(r["sig_at"], r["sig_kind"])))
         # always terminates in time
         if r["exit"] > G + TOL:
             key = "negative-wait-before-exceeds-graceful" if W < 0 else "exit-after-graceful-period"
@@ -106,26 +126,38 @@ def monitor(ctx, rows, notes):
                           % (r["exit"] / SEC, G / SEC, W / SEC), case)
         if W < 0:
             continue
+        # keeps serving for the configured wait-before period: the process is still there when it ends
+        if r["exit"] < W - MARGIN:
+            ctx.violation("gone-before-wait-before-elapsed", "the process was gone (%s) %.2f s after the signal, before the wait-before period of %.2f s was over%s"
+                          % (status_text(r["code"]), r["exit"] / SEC, W / SEC, more), case)
         fins = []
-        for a, d, acc, comp in zip(r["arr"], r["svc"], r["acc"], r["comp"]):
+        for a, d, acc, comp, end in zip(r["arr"], r["svc"], r["acc"], r["comp"], r["ends"]):
             # keeps serving during the wait-before period, then stops accepting
             if a < W - MARGIN and not acc:
-                ctx.violation("refused-during-wait-before", "a request arriving before the end of the wait-before period was refused", case)
+                ctx.violation("refused-during-wait-before", "a request arriving %.2f s after the signal, before the end of the wait-before period (%.2f s), was refused%s"
+                              % (a / SEC, W / SEC, more), case)
             if a > W + MARGIN and a > MARGIN and acc:
                 ctx.violation("accepted-after-wait-before", "a connection was accepted after the wait-before period", case)
             # no accepted request is cut off while time remains
             if acc and a + d <= G - MARGIN and not comp:
-                ctx.violation("cut-off-while-time-remains", "an accepted request that needed until %.2f s (< graceful %.2f s) was cut off"
-                              % ((a + d) / SEC, G / SEC), case)
+                ctx.violation("cut-off-while-time-remains", "an accepted request that needed until %.2f s (< graceful %.2f s) was cut off at %.2f s; the process: %s at %.2f s%s"
+                              % ((a + d) / SEC, G / SEC, end / SEC, status_text(r["code"]), r["exit"] / SEC, more), case)
+            # ... nor, when it cannot complete within the graceful period, before that period is over
+            elif acc and not comp and end < min(a + d, G) - MARGIN:
+                ctx.violation("cut-off-before-graceful-period-over", "an accepted request (needing until %.2f s) was cut off at %.2f s although the graceful period lasts until %.2f s; the process: %s at %.2f s%s"
+                              % ((a + d) / SEC, end / SEC, G / SEC, status_text(r["code"]), r["exit"] / SEC, more), case)
             if acc:
                 fins.append(a + d)
         # exits successfully as soon as they have
         if all(c for c, acc in zip(r["comp"], r["acc"]) if acc) and all(f <= G - MARGIN for f in fins):
             last = max([W] + fins)
             if r["code"] != 0:
-                ctx.violation("drained-but-exit-status-failure",
-                              "every accepted request completed (the last at %.2f s, graceful period %.2f s) but the process exited with status %d at %.2f s"
-                              % (last / SEC, G / SEC, r["code"], r["exit"] / SEC), case)
+                # (status 1 = the log.Fatalf of the deadline watcher; a process that was killed by a signal, or failed in another
+                # way, is a different failure and gets its own key)
+                ctx.violation("drained-but-exit-status-failure" if r["code"] == 1 else
+                              "drained-but-killed-by-signal" if r["code"] < 0 else "drained-but-exit-status-other",
+                              "every accepted request completed (the last at %.2f s, graceful period %.2f s) but the process did not exit successfully: %s at %.2f s%s"
+                              % (last / SEC, G / SEC, status_text(r["code"]), r["exit"] / SEC, more), case)
             if r["exit"] > last + TOL:
                 ctx.violation("exit-not-prompt", "everything completed at %.2f s but the process exited at %.2f s" % (last / SEC, r["exit"] / SEC), case)
             if r["exit"] < last - MARGIN:
@@ -152,13 +184,20 @@ def run(ctx):
     ctx.rule = ("(wait-before, graceful) in {(0,1s),(0.5s,2s),(1s,3s)} x in-flight request finishing {before the signal, just after the "
                 "listener closes, late but noticed by a poll, after the last poll before the deadline, after the deadline} x a request "
                 "arriving during the wait-before period x a connection attempt after it; an idle scenario per setting; one scenario with a "
-                "negative wait-before; thorough tier adds 96 random request mixes. distinct_nontrivial = distinct (setting, accepted vector, "
+                "negative wait-before; further signals: (wait-before, graceful) in {(0,2s),(0.5s,2s),(1s,3s)} x first signal rotating over TERM/HUP/INT/QUIT x "
+                "second signal of each of the four kinds {inside the wait-before period, inside the drain (every other kind followed by a third), "
+                "inside the wait-before period followed by a third and fourth inside the drain} with a request in flight, a request arriving after the "
+                "second signal but before the listener closes, and a connection attempt after it; idle + second signal; a SIGKILL control; "
+                "thorough tier adds 96 random request mixes, half of them with 1-3 further signals. distinct_nontrivial = distinct (setting, accepted vector, "
                 "completed vector, exit status) signatures")
     ctx.assumptions += [
         "PARTIAL: Model/Shutdown.v is a timeline model of the order Sleep(W) -> http.Server.Shutdown(ctx, timeout G - W) -> exit 0 / log.Fatalf "
         "transliterated from pkg/server/server.go:Start; http.Server.Shutdown (immediate listener close, waiting for in-flight requests, "
         "its poll schedule 1,2,4,...,500 ms which the model includes without the 10 % jitter), signal delivery and goroutine scheduling are "
         "the Go runtime's and are only exercised, not proved",
+        "further signals: the model takes from the code that SIGHUP/SIGINT/SIGTERM/SIGQUIT stay registered (signal.Notify, never stopped) and that "
+        "the channel is read once; the Go runtime's delivery (non-blocking send, default disposition of unregistered signals) is exercised, not proved; "
+        "c19_first_signal_only: the model's outcome does not depend on further registered signals",
         "hijacked connections (WebSocket upgrades) are not tracked by Shutdown and are outside the model",
         "real-time comparison: flags and exit status exact, exit time within 0.7 s; no retries; planned instants are kept >= 150 ms away from "
         "every instant at which the outcome changes (listener close, poll windows with jitter, deadline)",
